@@ -26,6 +26,12 @@ def rand_aircraft(rng, hist):
     for w in ac["wings"].values():
         if "control_surface" not in w and rng.random() < 0.7:
             w["control_surface"] = gen.gen_control_surface(rng, hist, names)
+    # a control declared without "is_symmetric" is a symmetric one (the default of the implementation; the generator otherwise always
+    # writes the flag)
+    for c, v in ac["controls"].items():
+        if v.get("is_symmetric", True) and rng.random() < 0.5:
+            v.pop("is_symmetric", None)
+            gen._tally(hist, "is_symmetric", "left to the default")
     return ac
 
 
